@@ -599,7 +599,9 @@ macro_rules! c13_ghost_support {
 
         /// Case split over the length of a symbolic byte string: `f` is run on the prefix of
         /// length n for a symbolic n in 0..=N, once per CONCRETE length, so that inside `f` every
-        /// buffer has a concrete layout (the byte values stay symbolic).
+        /// buffer has a concrete layout (the byte values stay symbolic).  Nothing after the
+        /// call is executed (every case ends its path), so it must be the harness's last
+        /// statement.
         pub(crate) fn for_each_prefix<const N: usize>(a: &[u8; N], mut f: impl FnMut(&[u8])) {
             let n: usize = kani::any();
             kani::assume(n <= N);
@@ -607,8 +609,36 @@ macro_rules! c13_ghost_support {
             while k <= N {
                 if n == k {
                     f(&a[..k]);
+                    // this case is finished: end the path here, so that the symbolic
+                    // executor does not merge its heap into the remaining cases
+                    kani::assume(false);
                 }
                 k += 1;
+            }
+        }
+
+        /// the same case split over a symbolic index x in 0..n
+        pub(crate) fn for_each_below(n: u32, mut f: impl FnMut(u32)) {
+            let x: u32 = kani::any();
+            kani::assume(x < n);
+            let mut k = 0;
+            while k < n {
+                if x == k {
+                    f(k);
+                    kani::assume(false);
+                }
+                k += 1;
+            }
+        }
+
+        /// the same case split over a symbolic bool
+        pub(crate) fn for_each_bool(mut f: impl FnMut(bool)) {
+            if kani::any() {
+                f(false);
+                kani::assume(false);
+            } else {
+                f(true);
+                kani::assume(false);
             }
         }
 
